@@ -19,6 +19,7 @@ R_SsS  == <<S, STAR, S, STAR>>              \* /*/*     multiple stars
 R_all  == <<STAR>>                          \* *        catch-all
 R_abS  == <<S, "a", S, "b", STAR>>          \* /a/b*    overlaps R_ab and R_aS
 R_SabS == <<STAR, "a", "b", STAR>>          \* *ab*     infix literal between stars
+R_empty == <<>>                            \* the empty pattern: matches the empty path only
 RouteCat == {R_a, R_ab, R_aS, R_S, R_Sb, R_aSb, R_aSS, R_SsS, R_all, R_abS}
 
 \* host patterns
@@ -27,7 +28,13 @@ H_Sx   == <<STAR, ".", "x">>                \* *.x      wildcard
 H_aS   == <<"a", ".", STAR>>                \* a.*      wildcard (also matches a.x:8)
 H_ax8  == <<"a", ".", "x", COLON, "8">>     \* a.x:8    exact with port
 H_S8   == <<STAR, COLON, "8">>              \* *:8      any host on port 8
-HostCat == {H_ax, H_Sx, H_aS, H_ax8, H_S8}
+H_empty == <<>>                            \* matches the empty Host value only
+H_SS   == <<STAR, STAR>>                   \* **       every Host value, the empty one too (`*` itself is refused by with_host)
+H_AX   == <<"A", ".", "X">>                \* A.X      upper case: not the pattern a.x
+HostCat == {H_ax, H_Sx, H_aS, H_ax8, H_S8, H_empty, H_SS, H_AX}
+
+\* case folding used by the *CaseFolded deviations
+MCFold(c) == IF c = "A" THEN "a" ELSE IF c = "X" THEN "x" ELSE IF c = "B" THEN "b" ELSE c
 
 \* Host header values: absent, exact, wildcard-matching, with port, non-matching
 NoHost == [hostp |-> FALSE, host |-> <<>>]
@@ -36,12 +43,16 @@ V_ax   == <<"a", ".", "x">>
 V_bx   == <<"b", ".", "x">>
 V_ax8  == <<"a", ".", "x", COLON, "8">>
 V_cy   == <<"c", ".", "y">>
-HostVals == <<NoHost, HV(V_ax), HV(V_bx), HV(V_ax8), HV(V_cy)>>
+V_AX   == <<"A", ".", "X">>                 \* the exact host in upper case: a different value
+V_none == <<>>                              \* `Host:` with an empty value: present, empty
+HostVals == <<NoHost, HV(V_ax), HV(V_bx), HV(V_ax8), HV(V_cy), HV(V_AX), HV(V_none)>>
 
 \* paths: matching several, one or no catalogue routes
+\* 6th: /a/b in another case; 7th: the EMPTY path (request target `` or `?query`)
 Paths == << <<S>>, <<S, "a">>, <<S, "a", S, "b">>, <<S, "a", S, "c">>, <<S, "b">>,
-            <<S, "a", S, "b", S, "c">>, <<S, "a", "b">>, <<S, "c", S, "b">>,
-            <<S, "a", "a", "a", "b">> >>      \* 9th: only for the inherited matcher deviation (NPaths = 9)
+            <<S, "A", S, "b">>, <<>>, <<S, "a", "b">>,
+            <<S, "a", S, "b", S, "c">>, <<S, "c", S, "b">>,
+            <<S, "a", "a", "a", "b">> >>      \* 11th: only for the inherited matcher deviation (NPaths = 11)
 \* queries: none; one whose text would change the match if it were part of the path (`/a?x/b` ends in /b);
 \* the empty query `/a?`
 Queries == << <<>>, <<QM, "x", S, "b">>, <<QM>> >>
@@ -88,7 +99,10 @@ RP5 == {R_a, R_ab, R_aS, R_Sb, R_aSb}
 RPK == {<<S, STAR, "a", "a", "b">>, R_Sb}      \* /*aab: for the inherited matcher deviation
 HP2 == {H_ax, H_Sx}
 HP3 == {H_ax, H_Sx, H_aS}
-HP5 == HostCat
+RPE == {R_aS, R_empty}                \* live configuration: the empty pattern and the empty path
+HPS == {H_Sx, H_SS}                   \* live configuration: `**` also matches the empty Host value
+HPC == {H_ax, H_AX}                  \* for HostCaseFolded
+HPE == {H_SS, H_Sx}                   \* for EmptyHostIsAbsent
 
 (***************************************************************************)
 (* Witnesses: the explored space contains the interesting cases. TLC must  *)
@@ -126,12 +140,12 @@ DevPrint == (Done /\ res # Expected(app, req)) =>
 (* skip 1 when a later host sub-app also matches the Host value.           *)
 (***************************************************************************)
 CONSTANTS GenLists, GenHostSeqs   \* route lists and host-pattern sequences of the generated family
-GenReqs == [i \in 1..(2 * Len(HostVals) * NPaths * NQueries) |->
+GenReqs == [i \in 1..(2 * NHostVals * NPaths * NQueries) |->
               LET n == i - 1
                   k == n % 2
-                  h == (n \div 2) % Len(HostVals)
-                  p == (n \div (2 * Len(HostVals))) % NPaths
-                  q == n \div (2 * Len(HostVals) * NPaths)
+                  h == (n \div 2) % NHostVals
+                  p == (n \div (2 * NHostVals)) % NPaths
+                  q == n \div (2 * NHostVals * NPaths)
               IN [kind |-> IF k = 0 THEN "http" ELSE "ws", hostp |-> HostVals[h + 1].hostp,
                   host |-> HostVals[h + 1].host, target |-> Paths[p + 1] \o Queries[q + 1], other |-> 0]]
 
@@ -165,10 +179,13 @@ L5 == <<R_aSS, R_all>>          \* adjacent stars, then catch-all
 L6 == <<R_abS, R_S>>            \* overlapping prefix, then /*
 L7 == <<R_all, R_a, R_ab>>      \* catch-all first: shadows everything behind it
 L8 == <<R_a, R_a, R_S>>         \* the same pattern twice
-GenListsQuick == {L0, L2, L4, L6}
-GenListsThorough == {L0, L1, L2, L3, L4, L5, L7}
-GenListsWide == {L0, L1, L2, L3, L4, L5, L6, L7, L8}
-GenHostSeqsQuick == {<<>>, <<H_ax>>, <<H_Sx>>, <<H_ax, H_Sx>>, <<H_Sx, H_ax>>, <<H_aS, H_S8>>}
+L9 == <<R_empty, R_abS, R_S>>   \* the empty pattern first: skipped by every path but the empty one
+GenListsQuick == {L0, L2, L4, L9}
+GenListsThorough == {L0, L2, L3, L4, L5, L7, L9}
+GenListsWide == {L0, L1, L2, L3, L4, L5, L6, L7, L8, L9}
+\* <<H_Sx, H_Sx>>: with_host twice with the same pattern; <<H_empty, H_SS>>: the empty Host value;
+\* <<H_AX, H_ax>>: a pattern in upper case before its lower-case twin
+GenHostSeqsQuick == {<<>>, <<H_ax>>, <<H_Sx, H_Sx>>, <<H_ax, H_Sx>>, <<H_Sx, H_ax>>, <<H_aS, H_S8>>, <<H_empty, H_SS>>}
 GenHostSeqsThorough == {<<>>, <<H_ax>>, <<H_Sx>>, <<H_S8>>, <<H_ax, H_Sx>>, <<H_Sx, H_ax>>, <<H_aS, H_S8>>,
-                        <<H_ax8, H_aS>>, <<H_Sx, H_Sx>>}
+                        <<H_ax8, H_aS>>, <<H_Sx, H_Sx>>, <<H_empty, H_SS>>, <<H_AX, H_ax>>}
 =============================================================================
